@@ -2569,4 +2569,315 @@ theorem normal_eq {wp : Bool} {r : Reaction} (hir : r.inactReac = []) (hip : r.i
 theorem initStoich_ordered (d : Dict) : initStoich .ordered d = d := rfl
 
 
+/-! ### the parsed dictionaries are in strictly increasing key order -/
+
+theorem strLe_total {a b : Str} (h : strLe a b = false) : strLe b a = true := by
+  induction a generalizing b with
+  | nil => simp [strLe] at h
+  | cons x a ih =>
+    cases b with
+    | nil => rfl
+    | cons y b =>
+      simp only [strLe, Bool.or_eq_false_iff, decide_eq_false_iff_not, Bool.and_eq_false_iff, beq_eq_false_iff_ne] at h
+      simp only [strLe, Bool.or_eq_true, decide_eq_true_eq, Bool.and_eq_true, beq_iff_eq]
+      by_cases hxy : x = y
+      · subst hxy
+        right; refine ⟨rfl, ih ?_⟩
+        rcases h.2 with h2 | h2
+        · exact absurd rfl h2
+        · exact h2
+      · left
+        have : x.toNat ≠ y.toNat := fun e => hxy (Char.ext (by
+          have := congrArg UInt32.ofNat e; simpa [Char.toNat] using UInt32.toNat_inj.mp e))
+        omega
+
+theorem strLe_trans {a b c : Str} (h1 : strLe a b = true) (h2 : strLe b c = true) : strLe a c = true := by
+  induction a generalizing b c with
+  | nil => rfl
+  | cons x a ih =>
+    cases b with
+    | nil => simp [strLe] at h1
+    | cons y b =>
+      cases c with
+      | nil => simp [strLe] at h2
+      | cons z c =>
+        simp only [strLe, Bool.or_eq_true, decide_eq_true_eq, Bool.and_eq_true, beq_iff_eq] at h1 h2 ⊢
+        rcases h1 with h1 | ⟨e1, h1⟩ <;> rcases h2 with h2 | ⟨e2, h2⟩
+        · left; omega
+        · subst e2; left; exact h1
+        · subst e1; left; exact h2
+        · subst e1; subst e2; right; exact ⟨rfl, ih h1 h2⟩
+
+theorem sortedKeys_insertByKey {kv : Str × Coef} {d : Dict} (hk : kv.1 ∉ keysOf d) (hd : SortedKeys d) :
+    SortedKeys (insertByKey kv d) := by
+  induction d with
+  | nil => exact ⟨by simp, trivial⟩
+  | cons x t ih =>
+    have hne : kv.1 ≠ x.1 := fun e => hk (by simp [keysOf, e])
+    have hnt : kv.1 ∉ keysOf t := fun e => hk (by simp only [keysOf, List.map_cons, List.mem_cons]; right; exact e)
+    simp only [insertByKey]
+    split
+    · rename_i hle
+      refine ⟨?_, hd⟩
+      intro y hy
+      simp only [List.mem_cons] at hy
+      rcases hy with hy | hy
+      · subst hy; exact ⟨hle, hne⟩
+      · refine ⟨strLe_trans hle (hd.1 y hy).1, ?_⟩
+        intro e; exact hnt (by rw [e]; exact List.mem_map.mpr ⟨y, hy, rfl⟩)
+    · rename_i hle
+      have hle' : strLe x.1 kv.1 = true := strLe_total (by simpa using hle)
+      refine ⟨?_, ih hnt hd.2⟩
+      intro y hy
+      rw [mem_insertByKey] at hy
+      rcases hy with hy | hy
+      · subst hy; exact ⟨hle', fun e => hne e.symm⟩
+      · exact hd.1 y hy
+
+theorem sortedKeys_sortDict {d : Dict} (hd : (keysOf d).Nodup) : SortedKeys (sortDict d) := by
+  induction d with
+  | nil => trivial
+  | cons x t ih =>
+    simp only [keysOf, List.map_cons, List.nodup_cons] at hd
+    have e : sortDict (x :: t) = insertByKey x (sortDict t) := rfl
+    rw [e]
+    exact sortedKeys_insertByKey (by rw [mem_keys_sortDict]; exact hd.1) (ih hd.2)
+
+/-- parse ∘ print through the full `from_string` (eval layer included) for a reaction without inactive groups -/
+theorem parse_print_full {tok : Str} (htok : tokOK tok = true) {r : Reaction} (hre : GoodDict tok r.reac)
+    (hpr : GoodDict tok r.prod) (hir : r.inactReac = []) (hip : r.inactProd = []) (heff : r.anyEffect = true)
+    (ev wp : Bool) (hpar : wp = true → ∀ p, r.param = some p → Tight p ∧ ';' ∉ p ∧ '\n' ∉ p)
+    (hev : ev = true → wp = true → ∀ p, r.param = some p → paramEvalOK (some p) = true) :
+    ∃ s, printReaction tok wp false r = some s ∧
+      toReaction ev .none tok s = .ok ⟨r.reac, r.prod, [], [], finalParam ev (if wp then r.param else none), none⟩ := by
+  obtain ⟨hprint, hcore⟩ := parse_print_gen htok hre hpr hir hip heff wp hpar
+  refine ⟨_, hprint, ?_⟩
+  have htl : ∀ q ∈ (if wp then (r.param.map (' ' :: ·)).toList else []), ';' ∉ q ∧ '\n' ∉ q := by
+    intro q hq
+    cases wp
+    · simp at hq
+    · cases hpm : r.param with
+      | none => rw [hpm] at hq; simp at hq
+      | some p =>
+        rw [hpm] at hq; simp at hq; subst hq
+        obtain ⟨_, h2, h3⟩ := hpar rfl p hpm
+        exact ⟨by simp [h2], by simp [h3]⟩
+  rw [toReaction_lift ev .none htok (goodDict_terms hre) (goodDict_terms hpr) _ htl
+      (by cases wp <;> cases r.param <;> simp), hcore]
+  intro hevt
+  cases wp
+  · simp [paramEvalOK]
+  · cases hpm : r.param with
+    | none => simp [paramEvalOK]
+    | some p =>
+      have hs := strip_pad (pre := [' ']) (post := []) (hpar rfl p hpm).1 (by simp [isPySpace_space]) (by simp)
+      simp only [List.append_nil, List.cons_append, List.nil_append] at hs
+      simp [hs, hev hevt rfl p hpm]
+
+/-! ### restated / definitional facts (kept out of Props) -/
+
+/-- `copy()` goes through the constructor with OrderedDict containers, which `_init_stoich` keeps: same dictionaries in
+    the same order, equal, same printed text (the modelling decision "copy.copy keeps the OrderedDict type" is tied by the
+    correspondence; see `copy_through_dict_resorts_witness` in Props for why it matters) -/
+theorem copy_eq (arrow : Str) (wp wn : Bool) (r : Reaction) :
+    r.copy.reac = r.reac ∧ r.copy.prod = r.prod ∧ r.copy.inactReac = r.inactReac ∧ r.copy.inactProd = r.inactProd ∧
+    Reaction.eq r.copy r = true ∧ printReaction arrow wp wn r.copy = printReaction arrow wp wn r :=
+  ⟨rfl, rfl, rfl, rfl, Reaction.eq_refl r, rfl⟩
+
+/-- `OrderedDict == OrderedDict`: same keys in the same order and numerically equal values (int 2 == float 2.0) -/
+theorem dictEq_iff (d1 d2 : Dict) :
+    dictEq d1 d2 = true ↔ keysOf d1 = keysOf d2 ∧ d1.map (·.2.val) = d2.map (·.2.val) := by
+  induction d1 generalizing d2 with
+  | nil => cases d2 <;> simp [dictEq, keysOf]
+  | cons x t ih =>
+    obtain ⟨k, v⟩ := x
+    cases d2 with
+    | nil => simp [dictEq, keysOf]
+    | cons y t2 =>
+      obtain ⟨k2, v2⟩ := y
+      simp only [dictEq, Bool.and_eq_true, beq_iff_eq, ih t2, keysOf, List.map_cons, List.cons.injEq]
+      constructor
+      · rintro ⟨⟨h1, h2⟩, h3, h4⟩; exact ⟨⟨h1, h3⟩, h2, h4⟩
+      · rintro ⟨⟨h1, h3⟩, h2, h4⟩; exact ⟨⟨h1, h2⟩, h3, h4⟩
+
+/-- whatever the full reader returns comes from the eval-free core with the same four dictionaries -/
+theorem toReaction_core {ev : Bool} {allowed : Allowed} {tok line : Str} {r : Reaction}
+    (h : toReaction ev allowed tok line = .ok r) :
+    ∃ r0, toReactionCore allowed tok line = .ok r0 ∧ r.reac = r0.reac ∧ r.prod = r0.prod ∧
+      r.inactReac = r0.inactReac ∧ r.inactProd = r0.inactProd := by
+  unfold toReaction at h
+  simp only at h
+  split at h
+  · simp at h
+  · split at h
+    · simp at h
+    · split at h
+      · simp at h
+      · rename_i r0 hr0
+        simp at h; subst h
+        exact ⟨r0, hr0, rfl, rfl, rfl, rfl⟩
+
+/-! ### the `checks` / `dont_check` lists -/
+
+theorem runChecks_ok_iff (r : Reaction) (l : List String) :
+    r.runChecks l = .ok () ↔ ∀ c ∈ l, r.runCheck c = .ok () := by
+  induction l with
+  | nil => simp [Reaction.runChecks]
+  | cons c l ih =>
+    simp only [Reaction.runChecks, List.mem_cons, forall_eq_or_imp]
+    cases h : r.runCheck c with
+    | ok u => cases u; simp [ih]
+    | error e => simp
+
+theorem runCheck_ok_iff (r : Reaction) (c : String) :
+    r.runCheck c = .ok () ↔
+      (c = "any_effect" ∧ r.anyEffect = true) ∨ (c = "all_positive" ∧ r.allPositive = true) ∨
+      (c = "all_integral" ∧ r.allIntegral = true) ∨ c = "consistent_units" := by
+  unfold Reaction.runCheck
+  by_cases h1 : c = "any_effect"
+  · subst h1; cases r.anyEffect <;> simp
+  · by_cases h2 : c = "all_positive"
+    · subst h2; cases r.allPositive <;> simp
+    · by_cases h3 : c = "all_integral"
+      · subst h3; cases r.allIntegral <;> simp
+      · by_cases h4 : c = "consistent_units"
+        · subst h4; simp
+        · simp [h1, h2, h3, h4]
+
+theorem mem_symDiff (a b : List String) (c : String) :
+    c ∈ symDiff a b ↔ (c ∈ a ∧ c ∉ b) ∨ (c ∈ b ∧ c ∉ a) := by
+  simp [symDiff, List.mem_append, List.mem_filter]
+
+theorem map_ok_iff (x : Except CheckErr Unit) (r : Reaction) : (x.map fun _ => r) = .ok r ↔ x = .ok () := by
+  cases x with
+  | ok u => cases u; simp [Except.map]
+  | error e => simp [Except.map]
+theorem defaultChecks_mem (c : String) :
+    c ∈ Printing.defaultChecks ↔ c = "all_integral" ∨ c = "all_positive" ∨ c = "any_effect" ∨ c = "consistent_units" := by
+  have : Printing.defaultChecks = ["all_integral", "all_positive", "any_effect", "consistent_units"] := by decide
+  rw [this]; simp
+
+
+/-! ### exponent form of a coefficient text -/
+
+theorem outOfRange_exp {m k : Nat} (hm1 : 1 ≤ m) (hk : k ≤ 285) (hm2 : m < 10 ^ 15) :
+    outOfRange m ((k : Int) - (0 : Nat)) = false := by
+  unfold outOfRange
+  have hE1 : (decide ((k : Int) - ((0 : Nat) : Int) > 400) || decide ((k : Int) - ((0 : Nat) : Int) < -400)) = false := by
+    simp only [Bool.or_eq_false_iff, decide_eq_false_iff_not]; constructor <;> omega
+  have hE2 : (k : Int) - ((0 : Nat) : Int) ≥ 0 := by omega
+  have hk2 : ((k : Int) - ((0 : Nat) : Int)).toNat = k := by omega
+  rw [if_neg (by rw [hE1]; simp), if_pos hE2, hk2]
+  have : m * 10 ^ k < 10 ^ 300 := by
+    have a : m * 10 ^ k < 10 ^ 15 * 10 ^ k := Nat.mul_lt_mul_of_pos_right hm2 (Nat.pow_pos (by decide))
+    have b : 10 ^ 15 * 10 ^ k ≤ 10 ^ 300 := by rw [← Nat.pow_add]; exact Nat.pow_le_pow_right (by decide) (by omega)
+    omega
+  simp; omega
+
+/-- `float("<m>e<k>")` is exactly `m · 10^k` -/
+theorem pyFloat_exp {m k : Nat} (hm : 1 ≤ m) (hlen : (natStr m).length ≤ 15) (hk : k ≤ 285) :
+    pyFloat (natStr m ++ 'e' :: natStr k) = .ok ((m : Rat) * ((10 ^ k : Nat) : Rat)) := by
+  obtain ⟨c0, r0, hcr, hc0⟩ := natStr_head_digit m
+  obtain ⟨k0, kr, hkr, hk0⟩ := natStr_head_digit k
+  have hchars : ∀ c ∈ natStr m ++ 'e' :: natStr k, c.isDigit = true ∨ c = 'e' := by
+    intro c hc; simp only [List.mem_append, List.mem_cons] at hc
+    rcases hc with hc | hc | hc
+    · exact Or.inl (natStr_digits hc)
+    · exact Or.inr hc
+    · exact Or.inl (natStr_digits hc)
+  have htight : Tight (natStr m ++ 'e' :: natStr k) := by
+    refine tight_append (natStr_ne_nil m) (by simp) (natStr_tight m).2.1 ?_
+    intro c hc
+    rw [List.getLast?_cons_of_ne_nil (natStr_ne_nil k)] at hc
+    exact digit_not_space (natStr_digits (List.mem_of_getLast? hc))
+  have hany : (natStr m ++ 'e' :: natStr k).any (fun c => decide (c.toNat ≥ 128)) = false := by
+    rw [List.any_eq_false]; intro c hc
+    rcases hchars c hc with h1 | h1
+    · have := digit_range h1; simp; omega
+    · subst h1; decide
+  have hsign : splitSign (natStr m ++ 'e' :: natStr k) = (false, natStr m ++ 'e' :: natStr k) := by
+    rw [hcr]
+    have h1 : c0 ≠ '-' := digit_ne hc0 (by decide)
+    have h2 : c0 ≠ '+' := digit_ne hc0 (by decide)
+    simp only [List.cons_append]
+    unfold splitSign; split
+    · rename_i heq; simp at heq; exact absurd heq.1 h1
+    · rename_i heq; simp at heq; exact absurd heq.1 h2
+    · rfl
+  have hsignk : splitSign (natStr k) = (false, natStr k) := by
+    rw [hkr]
+    have h1 : k0 ≠ '-' := digit_ne hk0 (by decide)
+    have h2 : k0 ≠ '+' := digit_ne hk0 (by decide)
+    unfold splitSign; split
+    · rename_i heq; simp at heq; exact absurd heq.1 h1
+    · rename_i heq; simp at heq; exact absurd heq.1 h2
+    · rfl
+  have hlow : ∀ w : Str, (∀ x r, w = x :: r → x.isDigit = false) → w ≠ [] →
+      ((natStr m ++ 'e' :: natStr k).map Char.toLower == w) = false := by
+    intro w hw hwne
+    rw [beq_eq_false_iff_ne]
+    intro e
+    cases w with
+    | nil => exact hwne rfl
+    | cons x r =>
+      rw [hcr] at e
+      simp only [List.cons_append, List.map_cons, List.cons.injEq] at e
+      have := hw x r rfl
+      rw [← e.1, toLower_digit hc0, hc0] at this
+      exact absurd this (by simp)
+  have hinf : ((natStr m ++ 'e' :: natStr k).map Char.toLower == "inf".toList) = false :=
+    hlow _ (by intro x r e; have : "inf".toList = ['i', 'n', 'f'] := by decide
+               rw [this] at e; simp at e; have e1 := e.1; subst e1; decide) (by decide)
+  have hinfty : ((natStr m ++ 'e' :: natStr k).map Char.toLower == "infinity".toList) = false :=
+    hlow _ (by intro x r e; have : "infinity".toList = ['i', 'n', 'f', 'i', 'n', 'i', 't', 'y'] := by decide
+               rw [this] at e; simp at e; have e1 := e.1; subst e1; decide) (by decide)
+  have hnan : ((natStr m ++ 'e' :: natStr k).map Char.toLower == "nan".toList) = false :=
+    hlow _ (by intro x r e; have : "nan".toList = ['n', 'a', 'n'] := by decide
+               rw [this] at e; simp at e; have e1 := e.1; subst e1; decide) (by decide)
+  have hnoeM : ∀ c ∈ natStr m, (c != 'e' && c != 'E') = true := by
+    intro c hc
+    have a : c ≠ 'e' := digit_ne (natStr_digits hc) (by decide)
+    have b : c ≠ 'E' := digit_ne (natStr_digits hc) (by decide)
+    simp [a, b]
+  have hmant : (natStr m ++ 'e' :: natStr k).takeWhile (fun c => c != 'e' && c != 'E') = natStr m :=
+    takeWhile_pre hnoeM (by decide)
+  have hrest : (natStr m ++ 'e' :: natStr k).dropWhile (fun c => c != 'e' && c != 'E') = 'e' :: natStr k :=
+    dropWhile_pre hnoeM (by intro c hc; simp at hc; subst hc; decide)
+  have hnodot : ∀ c ∈ natStr m, (c != '.') = true := by
+    intro c hc
+    have : c ≠ '.' := digit_ne (natStr_digits hc) (by decide)
+    simpa using this
+  have hip := takeWhile_all hnodot
+  have hoi : optDigits (natStr m) = some m := by
+    unfold optDigits
+    have : (natStr m).isEmpty = false := by rw [hcr]; rfl
+    rw [this]; simp only [Bool.false_eq_true, if_false]
+    rw [digitPart_of_digits (natStr_ne_nil m) (fun c hc => natStr_digits hc), digitsVal_natStr]
+  have hdk : digitPart (natStr k) = some k := by
+    rw [digitPart_of_digits (natStr_ne_nil k) (fun c hc => natStr_digits hc), digitsVal_natStr]
+  have hipe : (natStr m).isEmpty = false := by rw [hcr]; rfl
+  have hfn := filter_us_digits (s := natStr m) (fun c hc => natStr_digits hc)
+  have hL : m < 10 ^ (natStr m).length :=
+    (Nat.length_toDigits_le_iff (by decide) (List.length_pos_iff.mpr (natStr_ne_nil m))).mp (Nat.le_refl _)
+  have hm2 : m < 10 ^ 15 := Nat.lt_of_lt_of_le hL (Nat.pow_le_pow_right (by decide) hlen)
+  have hm0 : (m * 10 ^ 0 + 0 == 0) = false := by rw [beq_eq_false_iff_ne]; omega
+  have hnd : ¬ ((natStr m).length + 0 > 15) := by omega
+  have hoor := outOfRange_exp hm hk hm2
+  have hE2 : (k : Int) - ((0 : Nat) : Int) ≥ 0 := by omega
+  have hk2 : ((k : Int) - ((0 : Nat) : Int)).toNat = k := by omega
+  unfold pyFloat
+  simp only [strip_tight htight, hany, hsign, hinf, hinfty, hnan, hmant, hrest, hsignk, hdk, hip.1, hip.2, hoi, hipe,
+    hfn, List.drop, optDigits, List.isEmpty_nil, if_true, List.filter_nil, List.length_nil, Nat.pow_zero, Nat.mul_one,
+    Nat.add_zero, hnd, hoor, Bool.false_eq_true, if_false, Bool.or_self, Bool.false_and, scale10, hE2, hk2]
+  have hdm : digitPart (natStr m) = some m := by
+    rw [digitPart_of_digits (natStr_ne_nil m) (fun c hc => natStr_digits hc), digitsVal_natStr]
+  have hnd' : ¬ ((natStr m).length > 15) := by omega
+  have hm0' : (m + 0 == 0) = false := by rw [beq_eq_false_iff_ne]; omega
+  have hoor' : outOfRange (m + 0) ((k : Int) - ((0 : Nat) : Int)) = false := by simpa using hoor
+  rw [hdm]
+  simp only [hnd', hm0', hoor', hE2, hk2, if_false, if_true, Bool.false_eq_true, Nat.add_zero]
+  have hm0'' : (m == 0) = false := by rw [beq_eq_false_iff_ne]; omega
+  simp [hm0'']
+  simpa using hoor
+
 end ChemModel.ReactionText
